@@ -17,6 +17,10 @@ pub struct Job {
     pub max_dev: usize,
     /// also run the full product to this depth (0 = no)
     pub product_depth: usize,
+    /// also run the full product over an absolute score ladder {0, 1, 2, invalid} from a start
+    /// score of 2 to this depth (0 = no): histories where a proposal lies between the current
+    /// score and an earlier, higher one
+    pub ladder_depth: usize,
 }
 
 #[derive(Default)]
@@ -42,7 +46,8 @@ pub fn case_json(cfg: &Cfg, spec: &ProbeSpec, script: &[StepScript]) -> Value {
 }
 
 fn step_bounds(cfg: &Cfg, spec: &ProbeSpec) -> Vec<f64> {
-    spec.bounds.iter().map(|(lo, hi)| cfg.max_step * (hi - lo) / 2. * (1. + 1e-12)).collect()
+    // the proposal is value + move, rounded: allow a few ulps of the value on top of the bound
+    spec.bounds.iter().map(|(lo, hi)| cfg.max_step * (hi - lo) / 2. * (1. + 1e-12) + 8. * f64::EPSILON * lo.abs().max(hi.abs()).max(1.)).collect()
 }
 
 pub fn run_job(job: &Job, judge: &Judge) -> JobOut {
@@ -98,10 +103,44 @@ pub fn run_job(job: &Job, judge: &Judge) -> JobOut {
         let offs = [Some(0.), Some(-1.001), Some(-100.), None];
         let n = job.spec.n().min(2);
         let tail: Vec<StepScript> = (depth + 1..=len).map(|t| alpha.default_step(t)).collect();
-        for_each_product(n, &qs, &ks, &offs, depth, |head| {
+        for_each_product(n, &qs, &ks, &offs, depth, false, |head| {
             let mut s = head.to_vec();
             s.extend(tail.iter().cloned());
             one(&s, &mut out);
+        });
+    }
+    drop(one);
+    if job.ladder_depth > 0 && len > 0 {
+        let depth = job.ladder_depth.min(len);
+        let lspec = job.spec.clone().with_s0(2.);
+        let qs = [0.25, 0.75];
+        let ks = [0u64, thr_k_of(THRESHOLDS[4])];
+        let offs = [Some(0.), Some(1.), Some(2.), None];
+        let n = job.spec.n().min(2);
+        let tail: Vec<StepScript> = (depth + 1..=len).map(|t| alpha.default_step(t)).collect();
+        let bounds = step_bounds(&job.cfg, &lspec);
+        for_each_product(n, &qs, &ks, &offs, depth, true, |head| {
+            let mut s = head.to_vec();
+            s.extend(tail.iter().map(|x| StepScript { answer: x.answer.map(|a| a + 10.), ..*x }));
+            let obs = run_script(&job.cfg, &lspec, &s);
+            let an = analyse(&job.cfg, &obs, Some(&bounds));
+            out.runs += 1;
+            out.steps += obs.proposals.len() as u64;
+            if seen.insert(obs_fingerprint(&obs)) {
+                out.distinct += 1;
+            }
+            if an.unique_word.is_some() {
+                out.accepts += an.accepts as u64;
+                out.rejects += an.rejects as u64;
+            } else {
+                out.ambiguous += 1;
+            }
+            for (key, what) in judge(&job.cfg, &lspec, &s, &obs, &an) {
+                out.fail_count += 1;
+                if out.fails.len() < 2 {
+                    out.fails.push((key, what, case_json(&job.cfg, &lspec, &s)));
+                }
+            }
         });
     }
     out
@@ -192,7 +231,7 @@ pub fn c06(tier: Tier) -> ! {
                         if tier == Tier::Quick && (pi + n + steps as usize) % 2 == 1 {
                             continue;
                         }
-                        for spec in [ProbeSpec::standard(n), ProbeSpec::interior(n)].iter() {
+                        for spec in [ProbeSpec::standard(n), ProbeSpec::interior(n), ProbeSpec::standard(n).raw(), ProbeSpec::outside(n)].iter() {
                             jobs.push(Job {
                                 cfg: Cfg { steps, inner, kt_start: kt, kt_finish: fin, kt_ratio: ratio, max_step: ms, convergence: None },
                                 spec: spec.clone(),
@@ -200,6 +239,7 @@ pub fn c06(tier: Tier) -> ! {
                                 default_q: if ms >= 0.5 { 0. } else { 0.75 },
                                 max_dev: tier.pick(1, 2),
                                 product_depth: if n == 2 && steps == 4 && ms == 1. && pi == 0 { tier.pick(3, 4) } else { 0 },
+                                ladder_depth: 0,
                             });
                         }
                     }
@@ -232,7 +272,12 @@ pub fn c06(tier: Tier) -> ! {
 // C07
 
 pub fn accept_probability(cfg: &Cfg, spec: &ProbeSpec, t: usize, d: f64) -> Result<(f64, u64), String> {
-    // all steps but t are improvements (accepted whatever the temperature); step t is worse by d
+    accept_probability_h(cfg, spec, t, d, false)
+}
+
+/// `rejecting`: the steps before t are invalid proposals (all rejected) instead of improvements.
+pub fn accept_probability_h(cfg: &Cfg, spec: &ProbeSpec, t: usize, d: f64, rejecting: bool) -> Result<(f64, u64), String> {
+    // all steps but t are decided whatever the temperature; step t is worse by d
     let n = spec.n();
     let len = cfg.steps as usize;
     let mk = |k: u64| -> Vec<StepScript> {
@@ -240,9 +285,17 @@ pub fn accept_probability(cfg: &Cfg, spec: &ProbeSpec, t: usize, d: f64) -> Resu
             .map(|s| StepScript {
                 index: (s - 1) % n,
                 // a drifting walk that never revisits a parameter vector (the landscape is memoised)
-                q: if ((s - 1) / n) % 2 == 0 { 0.75 } else { 0.3 },
+                // (when the earlier proposals are rejected the state does not move, so every
+                // proposal needs its own displacement)
+                q: if rejecting { 0.55 + 0.02 * s as f64 } else if ((s - 1) / n) % 2 == 0 { 0.75 } else { 0.3 },
                 thr_k: if s == t { k } else { thr_k_of(0.5) },
-                answer: if s == t { Some((t - 1) as f64 - d) } else { Some(s as f64) },
+                answer: if s == t {
+                    Some(if rejecting { spec.s0 - d } else { (t - 1) as f64 - d })
+                } else if rejecting && s < t {
+                    None
+                } else {
+                    Some(s as f64)
+                },
             })
             .collect()
     };
@@ -299,7 +352,17 @@ pub fn c07(tier: Tier) -> ! {
                         default_q: 0.75,
                         max_dev: tier.pick(2, 3).min(if steps > 8 { 2 } else { 3 }),
                         product_depth: if n == 2 && steps == 4 && pi == 0 { tier.pick(3, 4) } else { 0 },
+                        ladder_depth: if n == 2 && pi == 0 && (steps == 4 || steps == 6) { tier.pick(3, 4) } else { 0 },
                     });
+                    if pi < 2 {
+                        // the same histories against an inconsistent (call-by-call) score function
+                        let mut j = jobs.last().unwrap().clone();
+                        j.spec = j.spec.raw();
+                        j.product_depth = 0;
+                        j.ladder_depth = 0;
+                        j.max_dev = j.max_dev.min(2);
+                        jobs.push(j);
+                    }
                 }
             }
         }
@@ -383,7 +446,7 @@ pub fn c07(tier: Tier) -> ! {
 pub fn c05_jobs(tier: Tier) -> Vec<Job> {
     let mut jobs = vec![];
     let fins = [None, Some(0.), Some(1e-3), Some(1.)];
-    let ratios = [None, Some(0.), Some(0.1), Some(1.)];
+    let ratios = [None, Some(0.), Some(0.1), Some(1.), Some(2.)];
     let mss = [0.01, 0.5, 1.];
     let convs = [None, Some(0.), Some(1e-3)];
     let mut k = 0usize;
@@ -405,7 +468,15 @@ pub fn c05_jobs(tier: Tier) -> Vec<Job> {
                                 default_q: 0.75,
                                 max_dev: tier.pick(1, 2),
                                 product_depth: if pi == 0 && steps == 4 && ms == 0.5 && conv.is_none() && n == 2 { 3 } else { 0 },
+                                ladder_depth: if pi == 0 && steps == 6 && ms == 0.5 && conv.is_none() { 3 } else { 0 },
                             });
+                            if k % 12 == 0 {
+                                let mut j = jobs.last().unwrap().clone();
+                                j.spec = ProbeSpec::outside(n);
+                                j.product_depth = 0;
+                                j.ladder_depth = 0;
+                                jobs.push(j);
+                            }
                         }
                     }
                 }
@@ -468,7 +539,7 @@ pub fn c19(tier: Tier) -> ! {
     let grid: Vec<(u64, u64)> = if tier == Tier::Quick { vec![(4, 1), (4, 2), (6, 2), (6, 3), (6, 1)] } else { vec![(4, 1), (4, 2), (6, 1), (6, 2), (6, 3), (8, 2), (12, 2), (12, 3), (9, 3), (7, 3), (5, 9)] };
     for n in 1..=3usize {
         for &(steps, inner) in grid.iter() {
-            for &ms in [0.01, 0.1, 0.5, 1.].iter() {
+            for &ms in [1e-6, 1e-4, 0.01, 0.1, 0.5, 1.].iter() {
                 for &(kt, ratio) in [(0., Some(0.)), (1e300, Some(0.))].iter() {
                     for pat in patterns().into_iter() {
                         for &q in [0., 0.75].iter() {
@@ -479,6 +550,7 @@ pub fn c19(tier: Tier) -> ! {
                                 default_q: q,
                                 max_dev: tier.pick(1, 2),
                                 product_depth: 0,
+                                ladder_depth: 0,
                             });
                         }
                     }
@@ -507,7 +579,7 @@ pub fn c19(tier: Tier) -> ! {
     let t = run_jobs(&mut run, &jobs, &judge);
     run.set("max_deviations", tier.pick(1, 2) as u64);
     run.set("exhaustive", true);
-    run.set("explanation", "Rejection histories from 0 % to 100 % per loop (4 baseline patterns and every departure of at most max_deviations fields from them), 1..12 inner loops, 4 maximum step sizes, 3 parameter ranges, extreme and moderate displacement draws, interior start values so that clamping cannot mask a move. Every proposal must differ from a state the run can be in by one parameter and by at most max_step_size * range / 2.");
+    run.set("explanation", "Rejection histories from 0 % to 100 % per loop (4 baseline patterns and every departure of at most max_deviations fields from them), 1..12 inner loops, 6 maximum step sizes (1e-6 .. 1), 3 parameter ranges, extreme and moderate displacement draws, interior start values so that clamping cannot mask a move. Every proposal must differ from a state the run can be in by one parameter and by at most max_step_size * range / 2.");
     run.require(t.accepts > 0 && t.rejects > 0, "both accepted and rejected steps must occur");
     run.finish()
 }
@@ -523,13 +595,13 @@ pub enum Temp {
     Unobservable,
 }
 
-pub fn measure_temperature(cfg: &Cfg, spec: &ProbeSpec, t: usize, guess: f64) -> (Temp, u64) {
+pub fn measure_temperature(cfg: &Cfg, spec: &ProbeSpec, t: usize, guess: f64, rejecting: bool) -> (Temp, u64) {
     let mut d = if guess > 0. && guess.is_finite() { guess * 0.7 } else { 1e-3 };
     let mut replays = 0;
     let mut saw_zero = false;
     let mut saw_one = false;
     for _ in 0..8 {
-        match accept_probability(cfg, spec, t, d) {
+        match accept_probability_h(cfg, spec, t, d, rejecting) {
             Err(_) => return (Temp::Unobservable, replays),
             Ok((p, n)) => {
                 replays += n;
@@ -569,7 +641,7 @@ pub fn measure_temperature(cfg: &Cfg, spec: &ProbeSpec, t: usize, guess: f64) ->
 
 pub fn c18_configs(tier: Tier) -> Vec<Cfg> {
     let mut v = vec![];
-    let shapes: Vec<(u64, u64)> = if tier == Tier::Quick { vec![(4, 1), (6, 2), (12, 4), (7, 3), (5, 5), (5, 9)] } else { vec![(4, 1), (6, 2), (10, 1), (12, 3), (12, 4), (7, 3), (5, 5), (5, 9), (12, 2), (9, 4), (8, 8)] };
+    let shapes: Vec<(u64, u64)> = if tier == Tier::Quick { vec![(4, 1), (4, 0), (6, 2), (12, 4), (7, 3), (5, 5), (5, 9)] } else { vec![(4, 1), (4, 0), (6, 0), (6, 2), (10, 1), (12, 3), (12, 4), (7, 3), (5, 5), (5, 9), (12, 2), (9, 4), (8, 8), (18, 1), (18, 0)] };
     for &start in [0., 0.01, 0.1, 1.].iter() {
         let mut schedules: Vec<(Option<f64>, Option<f64>)> = vec![(None, None)];
         for &r in [0., 0.1, 0.5, 0.9, 1.].iter() {
@@ -590,6 +662,21 @@ pub fn c18_configs(tier: Tier) -> Vec<Cfg> {
 }
 
 pub fn c18_check_config(cfg: &Cfg) -> (Vec<Temp>, u64, Vec<String>) {
+    let (t1, r1, mut f1) = c18_check_config_h(cfg, false);
+    // the same schedule must govern a run whose earlier proposals were all rejected
+    let (t2, r2, f2) = c18_check_config_h(cfg, true);
+    for f in f2 {
+        if f.starts_with("MACHINERY") {
+            continue;
+        }
+        f1.push(format!("(after rejected proposals only) {}", f));
+    }
+    let mut t = t1;
+    t.extend(t2);
+    (t, r1 + r2, f1)
+}
+
+pub fn c18_check_config_h(cfg: &Cfg, rejecting: bool) -> (Vec<Temp>, u64, Vec<String>) {
     let spec = ProbeSpec::interior(2);
     let len = cfg.steps as usize;
     let ie = cfg.inner_eff() as usize;
@@ -597,7 +684,7 @@ pub fn c18_check_config(cfg: &Cfg) -> (Vec<Temp>, u64, Vec<String>) {
     let mut replays = 0;
     let mut guess = cfg.kt_start;
     for t in 1..=(len / ie * ie) {
-        let (m, n) = measure_temperature(cfg, &spec, t, guess);
+        let (m, n) = measure_temperature(cfg, &spec, t, guess, rejecting);
         replays += n;
         if let Temp::Kt(k) = m {
             guess = k;
